@@ -9,6 +9,8 @@
 import GLua.Engines.Common
 import GLua.Model.StrLib
 import GLua.Spec.StrLib
+import GLua.Model.MathLib
+import GLua.Spec.MathSpec
 
 namespace GLua.Eng.StrEng
 open GLua GLua.Eng GLua.StrSpec
@@ -206,7 +208,99 @@ def handleFmt (fmt : Bytes) (args : List Arg) (impl : List String) : Verdict :=
           spec := if got = oracle then none else some ("format differs from the C oracle " ++ oracle) }
     | _ => { model := some "bad-reply" }
 
+/-! ### special-operand family (`sp`): every number travels as its IEEE bit pattern -/
+
+namespace Sp
+open GLua.IEEE GLua.MathSpec
+
+/-- `b<decimal bit pattern>` | `nan` (results: NaNs are one class) | `s<hex>` (a numeric string argument, converted
+    as Lua §2.2.1 / C strtod does) -/
+def parseNum (t : String) : Option Bits :=
+  if t = "nan" then some nanBits
+  else
+    let rest := (t.drop 1).toString
+    match t.front with
+    | 'b' => match rest.toNat? with
+      | some n => if n < p64 then some n else none
+      | none => none
+    | 's' => (hexToBytesL rest.toList).bind strtod
+    | _ => none
+
+def showNum (b : Bits) : String := if isNaN b then "nan" else "b" ++ toString b
+def showNums (l : List Bits) : String := " ".intercalate (l.map showNum)
+
+def sameB (a b : Bits) : Bool := a = b ∨ (isNaN a ∧ isNaN b)
+def sameL : List Bits → List Bits → Bool
+  | [], [] => true
+  | a :: r, b :: t => sameB a b && sameL r t
+  | _, _ => false
+
+def splitBar (l : List String) : List String × List String :=
+  (l.takeWhile (· ≠ "|"), (l.dropWhile (· ≠ "|")).drop 1)
+
+/-- first result that breaks its expectation -/
+def firstBad : List Expect → List Bits → Nat → Option String
+  | [], [], _ => none
+  | e :: es, r :: rs, k =>
+    if e.holds r then firstBad es rs (k + 1)
+    else some ("result " ++ toString (k + 1) ++ " = " ++ showNum r ++ ", the definition fixes " ++ e.show)
+  | es, _, _ => some (toString es.length ++ " results expected")
+
+def handle (fn : String) (argToks : List String) (impl : List String) : Verdict :=
+  let (gotT, refT) := splitBar impl
+  match argToks.mapM parseNum, refT.mapM parseNum with
+  | some xs, some ref =>
+    -- Model (transcribed wrapper over IEEE arithmetic, or Go's own function = the reference) and Spec
+    let model : Option (List Bits) :=
+      match fn, xs with
+      | "max", _ => (MathModel.mathMax xs).map ([·])
+      | "min", _ => (MathModel.mathMin xs).map ([·])
+      | _, [x] => MathModel.call1 fn x
+      | _, [x, y] => MathModel.call2 fn x y
+      | _, _ => none
+    let spec : Option (List Expect) :=
+      match fn, xs with
+      | "max", _ => specMaxMin true xs
+      | "min", _ => specMaxMin false xs
+      | "tonumber", [x] => some [.exact x]
+      | _, [x] => spec1 fn x
+      | _, [x, y] => spec2 fn x y
+      | _, _ => none
+    match spec with
+    | none => { model := some "bad-op" }
+    | some exps =>
+      let expected := model.getD ref
+      if model.isSome ∧ !sameL expected ref then
+        -- the trusted base is broken: Go's math (or this file's arithmetic) is not the IEEE operation
+        { model := some ("go-reference=" ++ showNums ref ++ " lean-model=" ++ showNums expected) }
+      else
+      match gotT.mapM parseNum with
+      | none =>
+        { model := some (showNums expected),
+          spec := some (fn ++ ": " ++ " ".intercalate gotT ++ " instead of " ++ toString exps.length ++ " number(s)") }
+      | some got =>
+        let m : Option String := if sameL got expected then none else some (showNums expected)
+        let sp : Option String := (firstBad exps got 0).map fun why =>
+          let kf : Bool := (fn == "mod" || fn == "opmod") && m.isNone &&
+            (match xs with | [a, b] => luaModIeeeOnly a b | _ => false)
+          let kfA : Bool := fn == "atan2" && m.isNone &&
+            (match xs with | [y, x] => atan2UnderflowClass y x | _ => false)
+          (if kf then "KF:C15-modulo-ieee-specials " else if kfA then "KF:C15-atan2-underflow-sign " else "") ++
+            fn ++ "(" ++ showNums xs ++ "): " ++ why
+        { model := m, spec := sp }
+  | _, _ => { model := some "bad-args" }
+
+end Sp
+
 /-! ### fmod / mod / max / min / random on exact integers -/
+
+/-- result token of the exact-integer ops: `i<n>`, or −0, which travels as its bit pattern -/
+def negZeroTok : String := "f9223372036854775808"
+def parseIntZ (t : String) : Option (Int × Bool) :=
+  if t = negZeroTok then some (0, true)
+  else if t.front = 'i' then ((t.drop 1).toString.toInt?).map fun i => (i, false)
+  else none
+def showIntZ (i : Int) (negZero : Bool) : String := if i = 0 ∧ negZero then negZeroTok else "i" ++ toString i
 
 def specFmodOk (x y r : Int) : Bool :=
   (r = 0 ∨ ((r > 0) = (x > 0))) ∧ r.natAbs < y.natAbs ∧ (x - r) % y = 0
@@ -218,6 +312,7 @@ def handle (ws : List String) : Verdict :=
   let (args, impl) := splitArrow ws
   match args with
   | [] => { model := some "bad-op" }
+  | "sp" :: fn :: rest => Sp.handle fn rest impl
   | "gochk" :: _ =>
     -- a Lua-level contract checked on the Go side (float results: exact or ≤ 1 ulp against Go's math)
     match impl with
@@ -297,20 +392,30 @@ def handle (ws : List String) : Verdict :=
         | none => { model := some "bad-args" }
       | "fmod", [.int x, .int y] =>
         if y = 0 then { model := some "bad-args" } else
-        let m := "i" ++ toString (StrModel.mathFmod x y)
+        let m := showIntZ (StrModel.mathFmod x y) (StrModel.goModNegZero x y)
         { model := cmpModel m impl,
           spec := match impl with
-            | [r] => match (r.drop 1).toString.toInt? with
-              | some r => if specFmodOk x y r then none else some "fmod: not the remainder with the dividend's sign"
+            | [r] => match parseIntZ r with
+              | some (r, nz) =>
+                if !specFmodOk x y r then some "fmod: not the remainder with the dividend's sign"
+                -- C99 7.12.10.1 / F.9.7.1: the result — also a zero — has the sign of x
+                else if r = 0 ∧ nz ≠ decide (x < 0) then some "fmod: a zero remainder must have the dividend's sign"
+                else none
               | none => some "fmod: not an integer"
             | _ => some "fmod malformed" }
       | "mod", [.int x, .int y] =>
         if y = 0 then { model := some "bad-args" } else
-        let m := "i" ++ toString (StrModel.mathMod x y)
+        let m := showIntZ (StrModel.mathMod x y) (StrModel.goModNegZero x y)
         { model := cmpModel m impl,
           spec := match impl with
-            | [r] => match (r.drop 1).toString.toInt? with
-              | some r => if specModOk x y r then none else some "mod: not the remainder with the divisor's sign"
+            | [r] => match parseIntZ r with
+              | some (r, nz) =>
+                if !specModOk x y r then some "mod: not the remainder with the divisor's sign"
+                -- manual §2.5.1: a - floor(a/b)*b; a zero remainder is a − a = +0
+                else if r = 0 ∧ nz then
+                  some ((if impl = [m] then "KF:C15-modulo-ieee-specials " else "") ++
+                        "mod: a zero remainder is -0, the manual's a - floor(a/b)*b gives +0")
+                else none
               | none => some "mod: not an integer"
             | _ => some "mod malformed" }
       | "random2", [.int m, .int n] =>
